@@ -72,6 +72,15 @@ def _parse_to_ast(
     list
         Untyped, unoptimized Vyper AST nodes.
     """
+    if vyper_source.startswith("\ufeff"):
+        # a byte order mark is not part of the program: neither the tokenizer
+        # nor the python parser count it in positions
+        vyper_source = vyper_source[1:]
+
+    # a carriage return which is not part of "\r\n" ends a line for the python
+    # parser but not for the tokenizer; make both see the same lines
+    vyper_source = re.sub(r"\r(?!\n)", "\n", vyper_source)
+
     if "\x00" in vyper_source:
         pos = vyper_source.index("\x00")
         lineno = vyper_source.count("\n", 0, pos) + 1
@@ -440,12 +449,17 @@ class AnnotatingVisitor(python_ast.NodeTransformer):
         Because `Yield` is an expression-statement, we also remove it from it's
         enclosing `Expr` node.
         """
+        # the pre-parser keys its translations by the position in the
+        # reformatted text: grab it before generic_visit adjusts the columns
+        key = None
+        if isinstance(node.value, python_ast.Yield):
+            key = (node.value.lineno, node.value.col_offset)
+
         self.generic_visit(node)
 
         if isinstance(node.value, python_ast.Yield):
             # CMC 2024-03-03 consider unremoving this from the enclosing Expr
             node = node.value
-            key = (node.lineno, node.col_offset)
             if key not in self._pre_parser.keyword_translations:
                 # the positions recorded by the pre-parser and the positions of
                 # the re-parsed source disagree (e.g. a form feed, a lone
